@@ -36,6 +36,9 @@ Definition commutator_ok (env : lenv) (new : req) (cur : uop) (tcols : gset tag)
   | None => uop_eqb (c_second c) cur && negb (c_done c)
   | Some f =>
       let l2 := sem_op (c_second c) (sem_req env f l) in
+      (* a join lists its left operand's rows in the outer loop: with the FIXED operand on the left no operation on the
+         other operand can restore that order, so such requests are judged as multisets *)
+      let same := match new with RJoin _ _ true => bag_eqb | _ => rows_eqb end in
       req_wfb f tcols && op_wfb (c_second c) (req_columns f tcols)
-      && rows_eqb (if c_done c then l2 else sem_req env new l2) (sem_req env new (sem_op cur l))
+      && same (if c_done c then l2 else sem_req env new l2) (sem_req env new (sem_op cur l))
   end.
